@@ -85,8 +85,13 @@ outer:
 					}
 					if (shape == "wide" || shape == "random") && (forced || rr.chance(1, 2)) {
 						long := strings.Repeat("L", 210)
-						art.set(long+"_first", nFile(rr.bytes(40)))
-						art.set(long+"_second", nFile(rr.bytes(41)))
+						nl := 2
+						if forced {
+							nl = 24 // many of them in flight at once
+						}
+						for k := 0; k < nl; k++ {
+							art.set(fmt.Sprintf("%s_%02d", long, k), nFile(rr.bytes(40+k)))
+						}
 						art.sortEnts()
 					}
 					failing := shape == "failing" || shape == "wide-failing"
